@@ -100,3 +100,14 @@ def _ccs_sign(case, res):
     return (case.get('cls') == 'PID_CCS' and msg.startswith('permuting the sources')
             and str(res.site).endswith('near-sign-change')
             and (res.detail or {}).get('ccs_min_pointwise_term', 1.0) < 5e-3)
+
+
+@predicate('gh-optimiser-random')
+def _gh_random(case, res):
+    """I_GH is the value of a randomised optimisation; on some inputs repeated runs on the SAME distribution land on
+    different optima (spread measured by the harness: repeated decompositions of the input in either order of the sources), so the comparison
+    with a permuted copy fails by chance. Matches only when that spread itself exceeds the equivariance tolerance."""
+    msg = (res.oracle_fail or '')
+    return (case.get('cls') == 'PID_GH' and msg.startswith('permuting the sources')
+            and str(res.site).endswith('optimiser-random')
+            and (res.detail or {}).get('gh_repeat_spread', 0.0) > 2e-2)
